@@ -122,6 +122,17 @@ def check(run):
     one_case(run, specs, gamma, np.zeros(3), check_tau=False)
     run.count("zero-diagonal density matrix with non-negative density")
     indefinite_tau_case(run)
+    # several segmented contractions of one angular momentum stored as one shell (every primitive in exactly one column); a density
+    # matrix of small magnitude (everything is linear in it)
+    from checks.common import structured_coefficient_shell
+    for k, kind in enumerate(("block-disjoint",) if quick else ("block-disjoint", "permutation", "shared-primitive", "block-disjoint")):
+        sh = structured_coefficient_shell(rng, k % 2, kind, sph=bool(k % 2))
+        sh = sh.copy(center=[core.snap(rng.uniform(-0.4, 0.4), 8) for _ in range(3)], exps=[min(max(e, 0.35), 2.0) * (1 + 0.21 * i) for i, e in enumerate(sh.exps)])
+        other = ShellSpec(1 - k % 2, [core.snap(rng.uniform(-0.4, 0.4), 8) for _ in range(3)], [core.rand_exp(rng, 0.4, 2.5)], [[1.0]], sph=bool((k + 1) % 2))
+        specs = [sh, other]
+        nb = sum(s_.size for s_ in specs)
+        one_case(run, specs, random_symmetric(rng, nb, psd=True) * (1e-9 if k % 2 else 1.0), np.zeros(3))
+        run.count("coefficient matrix of %s type" % kind)
     # shells that keep their stored coefficients instead of renormalising (what from_iodata builds): the overlap diagonal is the true
     # self-overlap, not 1, and must equal the integrated squares of the evaluations
     c = [core.snap(rng.uniform(-0.4, 0.4), 8) for _ in range(3)]
